@@ -647,3 +647,39 @@ def startpoints(w, repo):
                 return True, "find a - (a missing, '-' present): exit status %d although 'a' could not be examined (%s)" % (rc2, err2.decode(errors="replace").strip()[:80])
             return False, "find a -: exit status %d" % rc2
         return None, "find %s: rc=%d stdout=%r (no exact observable for this kind of deviation)" % (" ".join(toks), rc, out[:80])
+
+
+def exec_cli(w, repo):
+    """scenario battery for -exec ... ; and -exec ... {} + with a recorder command"""
+    if not build(repo):
+        return None, "build failed"
+    res = []
+    with Sandbox() as d:
+        os.makedirs(os.path.join(d, "r", "d"))
+        for n in ("a b", "e'{}"):
+            open(os.path.join(d, "r", n), "w").close()
+        open(os.path.join(d, "r", "d", "-n"), "w").close()
+        rec = os.path.join(d, "rec.sh")
+        open(rec, "w").write('#!/bin/sh\nprintf "%s|" "$PWD" >> "$REC_LOG"; for a in "$@"; do printf "<%s>" "$a" >> "$REC_LOG"; done; echo >> "$REC_LOG"\nexit ${REC_RC:-0}\n')
+        os.chmod(rec, 0o755)
+        log = os.path.join(d, "rec.log")
+
+        def go(args, rc_env="0"):
+            open(log, "w").close()
+            rc, out, err = run([find_bin(repo), "r", "-sorted"] + args, cwd=d, env=dict(os.environ, REC_LOG=log, REC_RC=rc_env))
+            return rc, out.decode(errors="replace"), [l for l in open(log).read().splitlines()]
+        rc, out, calls = go(["-exec", rec, "x{}y", "{}", ";"])
+        want = ["<x%sy><%s>" % (p, p) for p in ("r", "r/a b", "r/d", "r/d/-n", "r/e'{}")]
+        res.append(("-exec ; argv %r" % [c.split("|", 1)[1] for c in calls], [c.split("|", 1)[1] for c in calls] == want and rc == 0))
+        rc, out, calls = go(["-exec", rec, "{}", ";", "-print"], "3")
+        res.append(("failing -exec ; is false and leaves the status alone: rc=%d out=%r" % (rc, out), rc == 0 and out == ""))
+        rc, out, calls = go(["-exec", rec, "fixed", "{}", "+"])
+        res.append(("-exec + one invocation with all paths: %r" % calls, len(calls) == 1 and calls[0].endswith("<fixed><r><r/a b><r/d><r/d/-n><r/e'{}>")))
+        rc, out, calls = go(["-exec", rec, "{}", "+"], "1")
+        res.append(("failing -exec + makes the status non-zero: rc=%d" % rc, rc != 0))
+        rc, out, calls = go(["-execdir", rec, "{}", "+"])
+        ok = all(("<./" in c) for c in calls) and len(calls) >= 3
+        res.append(("-execdir + per directory: %r" % calls, ok))
+        rc, out, calls = go(["-exec", rec, "{}", "+", "-quit"])
+        res.append(("-exec + then -quit still runs the pending invocation: %r" % calls, len(calls) == 1 and calls[0].endswith("<r>")))
+    return _battery(res)
